@@ -216,6 +216,14 @@ def replay(path):
         return 1 if rc == 1 else (0 if rc == 0 else 2)
     if kind == 'kani-harness':
         return P.replay_kani(j)
+    if kind == 'bx-convert':
+        exe, err = units.build_bx()
+        if exe is None:
+            print(err)
+            return 2
+        rc, out, err, wall, to = units._sh([exe, 'convert', '--replay', path], 600)
+        print(out)
+        return 1 if rc == 1 else (0 if rc == 0 else 2)
     if kind in ('bx-builder', 'bx-resolver'):
         exe, err = units.build_bx()
         if exe is None:
